@@ -20,6 +20,8 @@ accumulateModel of the same raw function (model level). Partial: PSD (needs PT1)
 This file restates the theorems the property rests on (full statements; proofs are in PGProofs/).
 Generated once by harness/mkprops.py from harness/props_table.py + PGProperties/extra/C15.lean.in; committed as source.
 -/
+import PGProofs.RoutesThm
+import PGProofs.Conservation
 import PGProofs.MomentsThm
 import PGProofs.RewardsThm
 import PGProofs.SampleConsistency
@@ -29,6 +31,18 @@ set_option pp.fieldNotation.generalized false
 
 namespace PG.C15
 open PG
+
+/-- moments are linear in every reward slot (SumReward / scalar ProductReward act linearly), all k -/
+theorem multilinear : ∀ {K : Type} [inst : Field K] [inst_1 : LinearOrder K] [inst_2 : IsStrictOrderedRing K] {ι : Type} [inst_3 : Fintype ι] [inst_4 : DecidableEq ι] {k : ℕ} (L : ExpLaw K) (S : ℕ → Matrix ι ι K) (R : Fin k → ι → K) (a : Fin k) (r' : ι → K) (c1 c2 : K) (α : ι → K) (fs : List (ℕ × K)), accumVal L S (Function.update R a fun i ↦ c1 * R a i + c2 * r' i) α fs = c1 * accumVal L S R α fs + c2 * accumVal L S (Function.update R a r') α fs := @PG.Conservation.accumVal_slot_linear
+
+/-- two different reward tuples never share a memoisation key (key = class name + parameters, as in Reward.__hash__) -/
+theorem memo_keys_injective : Function.Injective (List.map Reward.key) := @PG.Reward.keys_injective
+
+/-- if _get_dist picks the lineage-counting space every reward of the tuple only depends on lineage counts -/
+theorem state_space_choice : ∀ (n : ℕ) (s₁ s₂ : State) (rs : List RouteReward), chooseSpace rs = SpaceKind.lineageCounting → ∀ r ∈ rs, State.lineageCounts s₁ = State.lineageCounts s₂ → RouteReward.eval n s₁ r = RouteReward.eval n s₂ r := @PG.chooseSpace_lineageCounting
+
+/-- rewards supporting lineage counting give the same value on block states with the same lineage counts -/
+theorem lc_rewards_ignore_blocks : ∀ (n : ℕ) (s₁ s₂ : State) (r : Reward), Reward.supportsLC r = true → State.lineageCounts s₁ = State.lineageCounts s₂ → Reward.eval n s₁ r = Reward.eval n s₂ r := @PG.eval_of_supportsLC
 
 /-- accumulate(center=True) = sum over subsets -/
 theorem centering : ∀ {ρ : Type u_1} [inst : Inhabited ρ] (raw : List ρ → ℚ) (permute : Bool) (rs : List ρ), 2 ≤ List.length rs → accumulateModel raw true permute rs = ∑ A ∈ Finset.powerset (Finset.range (List.length rs)), (-1) ^ (List.length rs - Finset.card A) * uncentred raw permute (subTuple rs A) * ∏ j ∈ Finset.range (List.length rs) \ A, uncentred raw true [List.getD rs j default] := @PG.accumulate_center_eq
@@ -62,6 +76,10 @@ theorem cov_symm : ∀ (n : ℕ) (idx : List ℕ) (x : ℕ → ℕ → ℚ) (mea
 
 end PG.C15
 
+#print axioms PG.C15.multilinear
+#print axioms PG.C15.memo_keys_injective
+#print axioms PG.C15.state_space_choice
+#print axioms PG.C15.lc_rewards_ignore_blocks
 #print axioms PG.C15.centering
 #print axioms PG.C15.central_moment
 #print axioms PG.C15.variance
